@@ -42,10 +42,12 @@ from collections import namedtuple
 from collections.abc import Iterable
 from enum import Enum
 
+from psyclone.core import AccessType
 from psyclone.psyir.nodes.call import Call
 from psyclone.psyir.nodes.datanode import DataNode
 from psyclone.psyir.nodes.literal import Literal
 from psyclone.psyir.nodes.reference import Reference
+from psyclone.psyir.nodes.schedule import Schedule
 from psyclone.psyir.symbols import IntrinsicSymbol
 
 # pylint: disable=too-many-branches
@@ -919,10 +921,24 @@ class IntrinsicCall(Call):
             # If this is an inquiry access (which doesn't actually access the
             # value) and we haven't explicitly requested them, ignore the
             # inquired variables, which are always the first argument.
-            for child in self.arguments[1:]:
-                child.reference_accesses(var_accesses)
+            arguments = self.arguments[1:]
         else:
-            for child in self.arguments:
+            arguments = self.arguments
+        # An intrinsic *function* never modifies its arguments. An intrinsic
+        # subroutine (this node is then a statement, i.e. a child of a
+        # Schedule: ALLOCATE, DEALLOCATE, RANDOM_NUMBER, MVBITS, ...) may
+        # modify any argument that is passed by reference: as in Call, those
+        # are conservatively marked READWRITE.
+        may_modify = isinstance(self.parent, Schedule)
+        for child in arguments:
+            if may_modify and isinstance(child, Reference):
+                sig, indices_list = child.get_signature_and_indices()
+                var_accesses.add_access(sig, AccessType.READWRITE, child)
+                # Any symbols referenced in any index expressions are READ.
+                for indices in indices_list:
+                    for idx in indices:
+                        idx.reference_accesses(var_accesses)
+            else:
                 child.reference_accesses(var_accesses)
 
     # TODO #2102: Maybe the three properties below can be removed if intrinsic
